@@ -24,6 +24,17 @@
 // case that is not expired, selects the validator and has no report of it on the chain: exactly one report each, none
 // for any other request.
 //
+// Executor mode "rest" (Exec = "rest") puts the REAL executor of yoda/executor in place of the stub:
+// executor.NewExecutor("rest:http://127.0.0.1:<port>/?timeout=...") talks to an HTTP server inside the test process
+// that plays the remote executor endpoint from the generated case: per (BAND_REQUEST_ID, BAND_EXTERNAL_ID) of the
+// posted env a 200 with {returncode, stdout, stderr, version}, a non-2XX status with a body of generated length
+// (error pages longer than MaxReportDataSize included), a body that is not JSON, a connection closed without an
+// answer, or no answer at all until the client gives up. Contract read from rest.go/handler.go: returncode 0 ->
+// stdout, otherwise stderr with that code; client timeout -> exit code 111 with empty data; any other failure -> 255
+// with empty data. A time-out is produced only by the server's "never answers" behaviour; should a normal answer
+// take longer than the (generous) client timeout on an overloaded machine, the wrapper's clock shows it and the case
+// is inconclusive instead of a violation.
+//
 // "Passes the chain's report validation" is decided by the chain itself: at the end of every round each report the
 // daemon queued is signed by the validator's account and DELIVERED in the next block of the chain the request came
 // from (real ante handler + real MsgReportData handler). The request is open (made one or two blocks earlier, far
@@ -38,10 +49,13 @@ package c19
 import (
 	"bytes"
 	"context"
+	"encoding/base64"
 	"encoding/binary"
 	"encoding/json"
 	"errors"
 	"fmt"
+	"net/http"
+	"net/http/httptest"
 	"os"
 	"path/filepath"
 	"runtime"
@@ -98,6 +112,10 @@ type c19Raw struct {
 	OutLen   int    `json:"outlen"`
 	OutSeed  int    `json:"outseed"`
 	DelayUs  int    `json:"delay_us,omitempty"`
+	// executor mode "rest", Kind "err": how the endpoint fails
+	Fail    string `json:"fail,omitempty"`     // status | badjson | hang | close
+	Status  int    `json:"status,omitempty"`   // status: the non-2XX code
+	BodyLen int    `json:"body_len,omitempty"` // status: length of the error page
 }
 
 type c19Req struct {
@@ -166,6 +184,7 @@ type c19Case struct {
 	Idle      int     `json:"idle,omitempty"`       // round 1, mode restart: see c19Round
 	Expire    int     `json:"expire,omitempty"`     // round 1, mode restart: see c19Round
 	ExpBlocks int     `json:"exp_blocks,omitempty"` // oracle param ExpirationBlockCount (0 = default 100)
+	Exec      string  `json:"exec,omitempty"`       // "" = executor stub, "rest" = the real REST executor against an in-process endpoint
 	MaxData   int     `json:"max_data,omitempty"`   // oracle param MaxReportDataSize of the chain (0 = default 512)
 	ExecCut   int     `json:"exec_cut,omitempty"`   // the executor cuts its output to this many bytes (0 = it does not cut)
 	// later rounds handled by the same daemon Context (round 1 = the fields above)
@@ -211,7 +230,7 @@ func genExecLen(rt *rapid.T, minLen int, excl *int) int {
 // genTxs draws the request transactions of one round. prefer (may be empty) lists data source indices the round
 // should ask on purpose: the first raw request of the first request takes one of them and that request tends to ask
 // every active validator, so that the daemon's validator is selected whenever it is active.
-func genTxs(rt *rapid.T, nds, nActive, maxData int, prefer []int, used map[int]bool, restart bool) []c19Tx {
+func genTxs(rt *rapid.T, nds, nActive, maxData int, prefer []int, used map[int]bool, restart, rest bool, hangLeft *int) []c19Tx {
 	var out []c19Tx
 	ntx := rapid.IntRange(1, 3).Draw(rt, "ntx")
 	for t := 0; t < ntx; t++ {
@@ -266,6 +285,26 @@ func genTxs(rt *rapid.T, nds, nActive, maxData int, prefer []int, used map[int]b
 					raw.Kind, raw.Code = "ok", gen.OneOf[uint32](rt, "code", 1, 2, 111, 126, 255, 256, 1<<32-1)
 				default:
 					raw.Kind = "err"
+					if rest {
+						switch gen.Pick(rt, "fail", 50, 15, 12, 23) {
+						case 0:
+							raw.Fail = "status"
+						case 1:
+							raw.Fail = "badjson"
+						case 2:
+							raw.Fail = "close"
+						default:
+							raw.Fail = "status"
+							if *hangLeft > 0 && gen.Chance(rt, "hang", 1, 4) { // every hang costs one client timeout of wall time
+								raw.Fail = "hang"
+								*hangLeft--
+							}
+						}
+						if raw.Fail == "status" {
+							raw.Status = gen.OneOf(rt, "status", 400, 404, 500, 502, 502, 504)
+							raw.BodyLen = gen.OneOf(rt, "bodylen", 0, 7, 100, maxData, maxData+1, maxData+300, 2000)
+						}
+					}
 				}
 				// output length: small ones, and the chain's report-data limit -1, +0, +1 and well above it
 				raw.OutLen = gen.OneOf(rt, "outlen", 0, 0, 1, 8, 24, 100, maxData-1, maxData, maxData, maxData+1, maxData+88)
@@ -370,7 +409,11 @@ func genC19(rt *rapid.T) c19Case {
 	if gen.Chance(rt, "nocut", 1, 10) {
 		c.ExecCut = 0
 	}
-	c.Txs = genTxs(rt, nds, nActive, c.MaxData, prefer1, used, c.Mode == "restart")
+	if gen.Chance(rt, "rest", 3, 10) {
+		c.Exec = "rest"
+	}
+	hangLeft := 2
+	c.Txs = genTxs(rt, nds, nActive, c.MaxData, prefer1, used, c.Mode == "restart", c.Exec == "rest", &hangLeft)
 	if c.Mode == "restart" {
 		c.Idle = gen.OneOf(rt, "idle", 0, 0, 1, 3)
 		if nRounds == 1 {
@@ -400,7 +443,7 @@ func genC19(rt *rapid.T) c19Case {
 			}
 		}
 		rd.Mode = gen.OneOf(rt, "rmode", "direct", "direct", "direct-go", "tx", "tx", "tx-go", "restart", "restart", "restart")
-		rd.Txs = genTxs(rt, nds, nActive, c.MaxData, sortedKeys(edited), used, rd.Mode == "restart")
+		rd.Txs = genTxs(rt, nds, nActive, c.MaxData, sortedKeys(edited), used, rd.Mode == "restart", c.Exec == "rest", &hangLeft)
 		if rd.Mode == "restart" {
 			rd.Idle = gen.OneOf(rt, "ridle", 0, 0, 1, 3)
 			if r == nRounds-1 {
@@ -447,6 +490,19 @@ func execBytes(d c19DS) []byte {
 // cutOut is what an executor with output limit cut (0 = none) returns for r (docker.go: io.LimitReader on the output).
 func cutOut(r c19Raw, cut int) []byte {
 	b := outBytes(r)
+	if cut > 0 && len(b) > cut {
+		b = b[:cut]
+	}
+	return b
+}
+
+// restOut is the output of r in executor mode "rest": the endpoint answers in JSON strings, so the bytes are printable
+// ASCII; the endpoint (the remote executor) cuts it to its limit like the stub does.
+func restOut(r c19Raw, cut int) []byte {
+	b := outBytes(r)
+	for i := range b {
+		b[i] = 32 + b[i]%95
+	}
 	if cut > 0 && len(b) > cut {
 		b = b[:cut]
 	}
@@ -651,7 +707,9 @@ type execAccept struct{ reqHash, handleHash string }
 
 type execStub struct {
 	inflight *int64
-	cut      int // output limit of the executor (0 = none)
+	cut      int               // output limit of the executor (0 = none)
+	real     executor.Executor // executor mode "rest": the real executor; the stub only keeps the books
+	dur      map[execKey]time.Duration
 
 	mu          sync.Mutex
 	outcomes    map[execKey]c19Raw
@@ -708,6 +766,15 @@ func (e *execStub) Exec(code []byte, arg string, env interface{}) (executor.Exec
 		e.errServed++
 	}
 	e.mu.Unlock()
+	if e.real != nil {
+		t0 := time.Now()
+		res, err := e.real.Exec(code, arg, env)
+		d := time.Since(t0)
+		e.mu.Lock()
+		e.dur[k] = d
+		e.mu.Unlock()
+		return res, err
+	}
 	if raw.DelayUs > 0 {
 		time.Sleep(time.Duration(raw.DelayUs) * time.Microsecond)
 	}
@@ -715,6 +782,122 @@ func (e *execStub) Exec(code []byte, arg string, env interface{}) (executor.Exec
 		return executor.ExecResult{}, errors.New("stub: executor failed")
 	}
 	return executor.ExecResult{Output: cutOut(raw, e.cut), Code: raw.Code, Version: "stub:1"}, nil
+}
+
+// ---- the executor endpoint of mode "rest" ------------------------------------------------------------------
+
+const restTimeout = 1000 * time.Millisecond // client timeout of the real executor; only a "hang" may reach it
+
+type restEndpoint struct {
+	ex   *execStub // outcomes by (request id, external id), under ex.mu
+	cut  int
+	stop chan struct{}
+
+	mu                                                                    sync.Mutex
+	okServed, statusServed, longBodyServed, badJSON, hangs, closes, tests int
+	unknown, badRequest                                                   int
+}
+
+func errorPage(status, n int) []byte {
+	page := []byte(fmt.Sprintf("<html><head><title>%d %s</title></head><body><h1>%d %s</h1><hr><center>gateway</center>", status, http.StatusText(status), status, http.StatusText(status)))
+	for len(page) < n {
+		page = append(page, []byte("<!-- a padding to disable MSIE and Chrome friendly error page -->\n")...)
+	}
+	return page[:n]
+}
+
+func (s *restEndpoint) ServeHTTP(rw http.ResponseWriter, rq *http.Request) {
+	var body struct {
+		Executable string            `json:"executable"`
+		Calldata   string            `json:"calldata"`
+		Timeout    int64             `json:"timeout"`
+		Env        map[string]string `json:"env"`
+	}
+	count := func(p *int) {
+		s.mu.Lock()
+		*p++
+		s.mu.Unlock()
+	}
+	if err := json.NewDecoder(rq.Body).Decode(&body); err != nil {
+		count(&s.badRequest)
+		http.Error(rw, "bad request", http.StatusBadRequest)
+		return
+	}
+	if _, err := base64.StdEncoding.DecodeString(body.Executable); err != nil {
+		count(&s.badRequest)
+	}
+	answer := func(code uint32, stdout, stderr string) {
+		rw.Header().Set("Content-Type", "application/json")
+		_ = json.NewEncoder(rw).Encode(map[string]any{"returncode": code, "stdout": stdout, "stderr": stderr, "version": "rest:1"})
+	}
+	if body.Env["BAND_REQUEST_ID"] == "test-request-id" { // the self test of executor.NewExecutor
+		count(&s.tests)
+		answer(0, body.Calldata+" "+body.Env["BAND_CHAIN_ID"]+"\n", "")
+		return
+	}
+	rid, _ := strconv.ParseUint(body.Env["BAND_REQUEST_ID"], 10, 64)
+	eid, _ := strconv.ParseUint(body.Env["BAND_EXTERNAL_ID"], 10, 64)
+	s.ex.mu.Lock()
+	raw, ok := s.ex.outcomes[execKey{rid, eid}]
+	s.ex.mu.Unlock()
+	if !ok {
+		count(&s.unknown)
+		http.Error(rw, "unknown raw request", http.StatusNotFound)
+		return
+	}
+	if raw.DelayUs > 0 {
+		time.Sleep(time.Duration(raw.DelayUs) * time.Microsecond)
+	}
+	if raw.Kind != "err" {
+		count(&s.okServed)
+		out := string(restOut(raw, s.cut))
+		if raw.Code == 0 {
+			answer(0, out, "decoy: stderr of a successful run")
+		} else {
+			answer(raw.Code, "decoy: stdout of a failed run", out)
+		}
+		return
+	}
+	switch raw.Fail {
+	case "badjson":
+		count(&s.badJSON)
+		rw.Header().Set("Content-Type", "application/json")
+		_, _ = rw.Write([]byte(`{"returncode": 0, "stdout": "cut off in the midd`))
+	case "hang": // no answer until the client gives up
+		count(&s.hangs)
+		select {
+		case <-rq.Context().Done():
+		case <-s.stop:
+		case <-time.After(10 * time.Second):
+		}
+	case "close":
+		count(&s.closes)
+		if hj, ok := rw.(http.Hijacker); ok {
+			if conn, _, err := hj.Hijack(); err == nil {
+				_ = conn.Close()
+				return
+			}
+		}
+		panic(http.ErrAbortHandler)
+	default:
+		st := raw.Status
+		if st < 300 || st > 599 {
+			st = 500
+		}
+		count(&s.statusServed)
+		rw.Header().Set("Content-Type", "text/html")
+		rw.WriteHeader(st)
+		n := raw.BodyLen
+		if n < 0 {
+			n = 0
+		}
+		if n > 8192 {
+			n = 8192
+		}
+		if n > 0 {
+			_, _ = rw.Write(errorPage(st, n))
+		}
+	}
 }
 
 // ---- crash journal -----------------------------------------------------------------------------------
@@ -812,6 +995,10 @@ type c19World struct {
 	askedAgainRaws, askedAgainRan, askedUneditedAgain                                   int
 	modes                                                                               map[string]bool
 	delivered, deliveredAtMax, deliveredBelowMax, overRefused, overAccepted             int
+
+	rest                                                                       *restEndpoint
+	restLongBody, restShortBody, restTimeouts, restBadJSON, restClosed, restOK int
+	spuriousTimeouts, errReportsWithData                                       int
 
 	nRounds  int
 	cacheDir string
@@ -1234,7 +1421,7 @@ func runC19(c c19Case) *pbt.Verdict {
 		}
 	}
 	w.rpc = &rpcStub{app: ch.App, inflight: &w.inflight, yield: c.Yield, permFail: w.permHash}
-	w.ex = &execStub{inflight: &w.inflight, cut: c.ExecCut, outcomes: map[execKey]c19Raw{}, accept: map[execKey]execAccept{}, calls: map[execKey]int{},
+	w.ex = &execStub{inflight: &w.inflight, cut: c.ExecCut, dur: map[execKey]time.Duration{}, outcomes: map[execKey]c19Raw{}, accept: map[execKey]execAccept{}, calls: map[execKey]int{},
 		gotHash: map[execKey]string{}}
 	kb, err := keyringFor(c.NKeys)
 	if err != nil {
@@ -1242,6 +1429,22 @@ func runC19(c c19Case) *pbt.Verdict {
 		return v
 	}
 	w.kb = kb
+	if c.Exec == "rest" {
+		// the real REST executor of yoda/executor against an endpoint in this process (keep-alives off: every exchange
+		// has a connection of its own, which is gone when the exchange is over)
+		w.rest = &restEndpoint{ex: w.ex, cut: c.ExecCut, stop: make(chan struct{})}
+		srv := httptest.NewUnstartedServer(w.rest)
+		srv.Config.SetKeepAlivesEnabled(false)
+		srv.Start()
+		defer srv.Close()
+		defer close(w.rest.stop)
+		real, rerr := executor.NewExecutor(fmt.Sprintf("rest:%s/?timeout=%s", srv.URL, restTimeout))
+		if rerr != nil {
+			v.Failf("harness", "executor.NewExecutor(rest): %v", rerr)
+			return v
+		}
+		w.ex.real = real
+	}
 	w.yc, err = yoda.VerifNewContext(ch.App, w.rpc, w.myVal, w.ex, kb, ch.Cfg.ChainID, cacheDir, uint64(c.MaxTry), 50*time.Microsecond, 256)
 	if err != nil {
 		v.Failf("harness", "VerifNewContext: %v", err)
@@ -1554,12 +1757,15 @@ func (w *c19World) round(ri int, rd c19Round) (*pbt.Verdict, bool) {
 	w.ex.mu.Lock()
 	calls := map[execKey]int{}
 	gotHash := map[execKey]string{}
+	durs := map[execKey]time.Duration{}
 	for _, m := range evalModels {
 		for _, r := range m.q.Raws {
 			k := execKey{m.id, r.EID}
-			calls[k], gotHash[k] = w.ex.calls[k], w.ex.gotHash[k]
+			calls[k], gotHash[k], durs[k] = w.ex.calls[k], w.ex.gotHash[k], w.ex.dur[k]
 		}
 	}
+	maxDataNow := int(ch.App.OracleKeeper.GetParams(ch.Ctx()).MaxReportDataSize)
+	legitOver := map[uint64]bool{} // requests whose report may legitimately carry data longer than the chain's limit
 	unknownCall := w.ex.unknownCall
 	w.ex.mu.Unlock()
 	if rpcBad != "" {
@@ -1680,13 +1886,52 @@ func (w *c19World) round(ri int, rd c19Round) (*pbt.Verdict, bool) {
 						m.id, ri+1, r.EID, did, h, hNow, hReq, prevHash)
 				}
 				// the report carries its exit code and output, or 255 if it returned an error
+				isRest := w.rest != nil
+				// (rest) a time-out result that the clock explains: the exchange really took the whole client timeout,
+				// although the endpoint was not told to hang. Load, not behaviour: the case cannot be judged.
+				if isRest && rr.ExitCode == 111 && len(rr.Data) == 0 && !(r.Kind == "err" && r.Fail == "hang") && !(r.Kind != "err" && r.Code == 111 && r.OutLen == 0) &&
+					durs[execKey{m.id, r.EID}] >= restTimeout*9/10 {
+					w.spuriousTimeouts++
+					continue
+				}
 				if r.Kind == "err" {
-					if rr.ExitCode != 255 {
-						v.Failf("C19/outcome", "request %d eid %d: executor returned an error but exit code is %d, want 255", m.id, r.EID, rr.ExitCode)
+					wantCode := uint32(255)
+					if isRest && r.Fail == "hang" {
+						wantCode = 111 // rest.go: a client timeout is reported as exit code 111 with empty output
 					}
-				} else if want := cutOut(r, c.ExecCut); rr.ExitCode != r.Code || !bytes.Equal(rr.Data, want) {
-					v.Failf("C19/outcome", "request %d eid %d: report (exit %d, %d bytes) differs from the executor's result (exit %d, %d bytes)",
-						m.id, r.EID, rr.ExitCode, len(rr.Data), r.Code, len(want))
+					if rr.ExitCode != wantCode {
+						v.Failf("C19/outcome", "request %d eid %d: executor failed (%s) but exit code is %d, want %d", m.id, r.EID, "error"+r.Fail, rr.ExitCode, wantCode)
+					}
+					if len(rr.Data) != 0 {
+						w.errReportsWithData++ // whether the chain takes it is decided by the delivery below
+					}
+					if isRest {
+						switch {
+						case r.Fail == "hang":
+							w.restTimeouts++
+						case r.Fail == "badjson":
+							w.restBadJSON++
+						case r.Fail == "close":
+							w.restClosed++
+						case r.BodyLen > maxDataNow:
+							w.restLongBody++
+						default:
+							w.restShortBody++
+						}
+					}
+				} else {
+					want := cutOut(r, c.ExecCut)
+					if isRest {
+						want = restOut(r, c.ExecCut)
+						w.restOK++
+					}
+					if len(want) > maxDataNow {
+						legitOver[m.id] = true // the executor itself produced more than the chain's limit (it did not cut)
+					}
+					if rr.ExitCode != r.Code || !bytes.Equal(rr.Data, want) {
+						v.Failf("C19/outcome", "request %d eid %d: report (exit %d, %d bytes) differs from the executor's result (exit %d, %d bytes)",
+							m.id, r.EID, rr.ExitCode, len(rr.Data), r.Code, len(want))
+					}
 				}
 				if (h == hReq || h == hNow) && w.permHash[h] && !w.cachedHash[h] {
 					v.Failf("harness", "request %d eid %d: executor ran although the file can never be fetched", m.id, r.EID)
@@ -1714,6 +1959,11 @@ func (w *c19World) round(ri int, rd c19Round) (*pbt.Verdict, bool) {
 			}
 			if !bytes.Equal(rr.Data, []byte("FAIL_TO_LOAD_DATA_SOURCE")) {
 				v.Count("load_failure_other_data", 1)
+			} else if len(rr.Data) > maxDataNow {
+				// yoda's fixed load-failure marker (24 bytes) is longer than a MaxReportDataSize of 16: the chain refuses
+				// such a report. Only reachable with a limit far below the default; counted, not asserted.
+				legitOver[m.id] = true
+				v.Count("load_failure_marker_longer_than_limit", 1)
 			}
 		}
 		if err := rep.ValidateBasic(); err != nil {
@@ -1736,6 +1986,13 @@ func (w *c19World) round(ri int, rd c19Round) (*pbt.Verdict, bool) {
 		}
 	}
 
+	if w.spuriousTimeouts > 0 {
+		iv := &pbt.Verdict{}
+		iv.Class("inconclusive")
+		iv.Count("rest_exchange_slower_than_client_timeout", int64(w.spuriousTimeouts))
+		return iv, false
+	}
+
 	// A violation must not be an artefact of evaluating too early: if anything is still moving a moment later
 	// (a late report, a stub call), quiescence had not been reached and the case is inconclusive instead.
 	if v.Violation != "" {
@@ -1752,7 +2009,8 @@ func (w *c19World) round(ri int, rd c19Round) (*pbt.Verdict, bool) {
 	// -- delivery: the chain the requests came from decides whether the reports pass its validation -----------
 	// Each report travels in a transaction of its own, signed by the validator's account, in the very next block.
 	// The request is open, selects the validator and has no report of it yet (all checked above), so the only
-	// legitimate refusal is a raw report longer than MaxReportDataSize (the executor did not cut its output).
+	// legitimate refusal is a raw report longer than MaxReportDataSize because the executor's own successful output
+	// was that long (it did not cut). Data that long in any other raw report (an executor failure) is the daemon's doing.
 	maxData := int(ch.App.OracleKeeper.GetParams(ctx).MaxReportDataSize)
 	var dtxs [][]byte
 	var dreps []*oracletypes.MsgReportData
@@ -1788,7 +2046,7 @@ func (w *c19World) round(ri int, rd c19Round) (*pbt.Verdict, bool) {
 				} else if longest == maxData-1 {
 					w.deliveredBelowMax++
 				}
-			case over:
+			case over && legitOver[uint64(rp.RequestID)]:
 				w.overRefused++
 				if tr.Codespace != oracletypes.ModuleName || tr.Code != oracletypes.ErrTooLargeRawReportData.ABCICode() {
 					v.Count("over_limit_refused_other_reason", 1)
@@ -1857,6 +2115,37 @@ func (w *c19World) stats(nRounds int) {
 	v.Count("exec_got_request_time_executable", int64(atReq))
 	v.Count("exec_got_handling_time_executable", int64(atHandle))
 	v.Count("load_failure_ambiguous_hash", int64(w.loadAmbiguous))
+	v.Count("executor_error_reports_with_data", int64(w.errReportsWithData))
+	if w.rest != nil {
+		v.Class("executor:rest")
+		w.rest.mu.Lock()
+		v.Count("rest_unknown_or_bad_requests", int64(w.rest.unknown+w.rest.badRequest))
+		v.Count("rest_exchanges", int64(w.rest.okServed+w.rest.statusServed+w.rest.badJSON+w.rest.hangs+w.rest.closes))
+		w.rest.mu.Unlock()
+		v.Count("rest_ok_reports", int64(w.restOK))
+		v.Count("rest_non_2xx_long_body_reports", int64(w.restLongBody))
+		v.Count("rest_non_2xx_short_body_reports", int64(w.restShortBody))
+		v.Count("rest_timeout_reports", int64(w.restTimeouts))
+		v.Count("rest_bad_json_reports", int64(w.restBadJSON))
+		v.Count("rest_connection_closed_reports", int64(w.restClosed))
+		if w.restLongBody > 0 {
+			v.Class("rest-non-2xx-long-body")
+		}
+		if w.restShortBody > 0 {
+			v.Class("rest-non-2xx-short-body")
+		}
+		if w.restTimeouts > 0 {
+			v.Class("rest-timeout")
+		}
+		if w.restBadJSON > 0 {
+			v.Class("rest-bad-json")
+		}
+		if w.restClosed > 0 {
+			v.Class("rest-connection-closed")
+		}
+	} else {
+		v.Class("executor:stub")
+	}
 	v.Count("restart_rounds", int64(w.restartRounds))
 	v.Count("restart_pending_ids_returned", int64(w.rsReturned))
 	v.Count("restart_owed_requests", int64(w.rsOwed))
